@@ -126,3 +126,17 @@ def merge_labeled_intervals(x_intervals: Arr(Real, None, 2), x_labels: Lst(ObjT)
     ensures(forall2_rect(k, n, lambda t, j: implies(x_intervals[j, 0] <= out[t, 0] and out[t, 0] < x_intervals[j, 1], xl[t] == x_labels[j])),
             forall2_rect(k, m, lambda t, j: implies(y_intervals[j, 0] <= out[t, 0] and out[t, 0] < y_intervals[j, 1], yl[t] == y_labels[j])),
             label='each-piece-carries-both-labels')
+
+
+# ----------------------------------------------------------------------------- intervals_to_boundaries
+ROUND = uninterpreted('ROUND', ['Real', 'Int'], 'Real')
+
+
+@contract("mir_eval.util.intervals_to_boundaries", props="C13")
+def intervals_to_boundaries(intervals: Arr(Real, None, 2), q: Int = 5) -> Arr(Real, None):
+    """the sorted distinct interval end points, each rounded to q decimals"""
+    n = length(intervals)
+    ensures(forall(0, length(result) - 1, lambda k: result[k] < result[k + 1]), label='strictly-increasing')
+    ensures(implies(n > 0, length(result) > 0), length(result) <= 2 * n, label='size')
+    ensures(forall(0, length(result), lambda k: exists(0, n, lambda i: result[k] == ROUND(intervals[i, 0], q) or result[k] == ROUND(intervals[i, 1], q))),
+            label='only-rounded-end-points')
